@@ -43,7 +43,12 @@ def setup():
 
 def manifest():
     checks = []
+    # only the properties the coordinator has accepted (check green on the unchanged tree, mutants caught)
+    claimed_path = os.path.join(C.ROOT, 'harness', 'claimed.json')
+    accepted = json.load(open(claimed_path)) if os.path.exists(claimed_path) else props()
     for p in props():
+        if p not in accepted:
+            continue
         mod = importlib.import_module(f'harness.props.{p.lower()}')
         checks.append({
             'property_id': p,
